@@ -690,7 +690,16 @@ impl EGraph {
             self.report_level,
             context,
         )?;
-        if let Some(message) = self.panic_message.lock().unwrap().take() {
+        let panic_message = self.panic_message.lock().unwrap().take();
+        if let Some(message) = panic_message {
+            // Rules that ran alongside the panicking one may have staged unions that
+            // `run_rules_impl` already merged into the union-find. Rebuild before
+            // reporting the error so that the database is left canonical; later runs
+            // only rebuild when the union-find grows again, so they would not repair it.
+            if self.db.get_table(self.uf_table).len() != uf_size_before {
+                self.rebuild()?;
+                self.panic_message.lock().unwrap().take();
+            }
             return Err(PanicError(message).into());
         }
 
